@@ -38,11 +38,18 @@ class ClassInfo:
                         pass
 
 
+GENERATED = {}      # "@gen/<name>" -> python text produced mechanically on this run (e.g. by cxx2py)
+
+
 class ModuleInfo:
     def __init__(self, relpath):
         self.relpath = relpath
-        self.path = os.path.join(VERIF, relpath[7:]) if relpath.startswith("@verif/") else os.path.join(SRC, relpath)
-        self.text = open(self.path, encoding="utf-8").read()
+        if relpath.startswith("@gen/"):
+            self.path = relpath
+            self.text = GENERATED[relpath]
+        else:
+            self.path = os.path.join(VERIF, relpath[7:]) if relpath.startswith("@verif/") else os.path.join(SRC, relpath)
+            self.text = open(self.path, encoding="utf-8").read()
         self.sha256 = hashlib.sha256(self.text.encode()).hexdigest()
         self.tree = ast.parse(self.text)
         self.functions = {}
